@@ -790,7 +790,8 @@ func replay(path string) int {
 		fmt.Println("NOT-REPRODUCED")
 		return 0
 	}
-	if len(rf.Tape) == 0 {
+	if len(rf.Tape) == 0 && !rf.Minimised {
+		// (a minimised tape may be empty: every choice takes its first alternative)
 		fmt.Printf("replay file carries no tape: %s\n", rf.Detail)
 		return 2
 	}
